@@ -281,6 +281,11 @@ class RecursiveParser {
         return function_pointer_typedefs_;
     }
 
+#ifdef CB_VERIF
+    // verification hook: number of this parser instance in the parse_iter trace
+    int verif_parser_id_ = 0;
+#endif
+
     // v0.11.0: import処理（パース時にモジュールをロードして定義を取り込む）
     void processImport(const std::string &module_path,
                        const std::vector<std::string> &import_items = {});
